@@ -210,7 +210,8 @@ fn next_probe_slot(rs: u16, k: u16, v6: bool) {
     }
     assert!(inv_scalar(&st));
     kani::cover!(matches!(cfg.protocol, Protocol::Tcp), "tcp");
-    kani::cover!(matches!(cfg.protocol, Protocol::Udp) && matches!(cfg.multipath_strategy, MultipathStrategy::Paris), "paris");
+    // beyond 253 used sequences only TCP (re-issues) can be in the round
+    kani::cover!(k > 253 || (matches!(cfg.protocol, Protocol::Udp) && matches!(cfg.multipath_strategy, MultipathStrategy::Paris)), "paris");
     std::mem::forget(st);
 }
 
@@ -1443,3 +1444,56 @@ accepted_config_harness!(c16_accepted_config_icmp_v4, 33434, 0, false);
 accepted_config_harness!(c16_accepted_config_udp_v6, 64511, 1, true);
 accepted_config_harness!(c16_accepted_config_udp_v4, 0, 1, false);
 accepted_config_harness!(c16_accepted_config_tcp_v4, 33434, 2, false);
+
+// =========================================================================== thorough tier
+
+/// Base case of the induction: the real `TracerState::new` (for every accepted configuration)
+/// satisfies INV, starts round 0 at the initial sequence with an all-NotSent buffer.
+/// (Pays the 512-iteration `from_fn` constructor: minutes of symbolic execution.)
+#[kani::proof]
+#[kani::unwind(514)]
+#[kani::stub(std::time::SystemTime::now, clock::now_stub)]
+fn c07_base_case_new_satisfies_inv() {
+    let cfg = any_strategy_config(kani::any());
+    kani::assume(accepted(&cfg));
+    let st = TracerState::new(cfg);
+    assert!(inv_scalar(&st), "TracerState::new satisfies INV");
+    assert!(st.round.0 == 0 && st.sequence == cfg.initial_sequence && st.round_sequence == cfg.initial_sequence);
+    assert!(st.ttl == cfg.first_ttl && !st.target_found && st.target_ttl.is_none() && st.max_received_ttl.is_none());
+    assert!(st.probes().is_empty());
+    assert!(matches!(st.buffer[0], ProbeStatus::NotSent) && matches!(st.buffer[511], ProbeStatus::NotSent));
+    assert!(is_round_start(&st));
+    kani::cover!(true, "reachable");
+    std::mem::forget(st);
+}
+
+// more window positions for the slot-content harnesses
+next_probe_slot_harness!(t07_next_probe_slot_1_254, 1, 254, false);
+next_probe_slot_harness!(t07_next_probe_slot_255_255, 255, 255, true);
+next_probe_slot_harness!(t07_next_probe_slot_256_256, 256, 256, false);
+next_probe_slot_harness!(t07_next_probe_slot_63999_510, 63999, 510, false);
+next_probe_slot_harness!(t07_next_probe_slot_65021_2, 65021, 2, true);
+reissue_probe_slot_harness!(t07_reissue_probe_slot_1_2, 1, 2, true);
+reissue_probe_slot_harness!(t07_reissue_probe_slot_64511_255, 64511, 255, false);
+reissue_probe_slot_harness!(t07_reissue_probe_slot_65022_256, 65022, 256, false);
+send_step_harness!(t06_send_step_icmp_65022_0, 65022, 0, 0, false);
+send_step_harness!(t06_send_step_icmp_1_253, 1, 253, 0, true);
+send_step_harness!(t06_send_step_udp_0_1, 0, 1, 1, false);
+send_step_harness!(t06_send_step_udp_64511_100, 64511, 100, 1, true);
+send_step_tcp_harness!(t06_send_step_tcp_1_255_fresh, 1, 255, true, 0);
+send_step_tcp_harness!(t06_send_step_tcp_64511_256_reissue_ok, 64511, 256, false, 1);
+send_step_tcp_harness!(t06_send_step_tcp_0_509_reissue_failed, 0, 509, false, 2);
+complete_probe_awaited_harness!(t01_complete_probe_awaited_1_255_254, 1, 255, 254, false);
+complete_probe_awaited_harness!(t01_complete_probe_awaited_64511_3_1, 64511, 3, 1, true);
+complete_probe_ignored_harness!(t03_duplicate_ignored_0_2_0, 0, 2, 0, 0, true);
+complete_probe_ignored_harness!(t03_never_sent_ignored_65022_100_511, 65022, 100, 511, 1, false);
+complete_probe_ignored_harness!(t03_skipped_ignored_1_400_398, 1, 400, 398, 2, true);
+complete_probe_ignored_harness!(t03_failed_ignored_64511_255_100, 64511, 255, 100, 3, false);
+recv_decision_harness!(t03_recv_decision_te_icmp_v6, 0, 0, true);
+recv_decision_harness!(t03_recv_decision_te_tcp_v4, 0, 2, false);
+recv_decision_harness!(t03_recv_decision_du_udp_v6, 1, 1, true);
+recv_decision_harness!(t03_recv_decision_du_icmp_v4, 1, 0, false);
+recv_decision_harness!(t03_recv_decision_du_tcp_v4, 1, 2, false);
+recv_decision_harness!(t03_recv_decision_du_tcp_v6, 1, 2, true);
+recv_decision_harness!(t03_recv_decision_tcp_reply_v6, 3, 2, true);
+recv_decision_harness!(t03_recv_decision_tcp_refused_v4, 4, 2, false);
